@@ -58,8 +58,6 @@ def discharge : List Discharge := [
   ⟨N.«ChainService.handleQuery», N.«getOutboundGroup.reply», rReplySend⟩,
   ⟨N.«ChainService.handleQuery», N.«getAddedNodesMsg.reply», rReplySend⟩,
   ⟨N.«ChainService.handleQuery», N.«disconnectNodeMsg.reply», rReplySend⟩,
-  ⟨N.«ChainService.handleQuery», N.«subConnPeersMsg.reply», "the requester (ConnectedPeers) creates this channel with capacity 1 and sends one request"⟩,
-  ⟨N.«ChainService.handleQuery», N.«peerChan», "created two lines above with capacity state.Count(); at most one send per peer in the state"⟩,
   -- requests served by peerHandler from goroutines that are waited for before ChainService.quit closes
   ⟨N.«ChainService.ConnectedPeers», N.«ChainService.query», rPeerHandlerLive⟩,
   ⟨N.«ChainService.Peers», N.«ChainService.query», rPeerHandlerLive⟩,
@@ -69,27 +67,95 @@ def discharge : List Discharge := [
   ⟨N.«ChainService.queryAllPeers», N.«wg», "detached helper waiting for the per-peer goroutines, each bounded by numRetries x timeout (previous row)"⟩,
   ⟨N.«ChainService.queryAllPeers», N.«allQuit», "allQuit is closed by the helper goroutine as soon as the per-peer goroutines have finished (bounded by numRetries x timeout)"⟩,
   ⟨N.«delayedCloser.closeEventually», N.«time.After()», "the time.After(timeout) alternative always fires"⟩,
-  -- work manager
-  ⟨N.«query.peerWorkManager.workDispatcher», N.«b.errChan», rBuf1 ++ " (Query: make(chan error, 1)); deferred loop over the batches still pending"⟩,
-  ⟨N.«query.peerWorkManager.workDispatcher», N.«bp.errChan», rBuf1⟩,
-  ⟨N.«query.peerWorkManager.workDispatcher», N.«batch.errChan», rBuf1⟩,
-  ⟨N.«query.peerWorkManager.Query», N.«errChan», "send on the capacity-1 channel created six lines above, first send"⟩,
   -- rescan
   ⟨N.«rescanState.rescan», N.«blockntfns.Subscription.Notifications», "SubscriptionManager.Stop cancels every subscriber, which closes its Notifications channel; the receive then yields !ok and the rescan returns an error (the caller's own quit is an additional alternative)"⟩,
   ⟨N.«rescanState.waitForBlocks», N.«blockntfns.Subscription.Notifications», "as above: closed by SubscriptionManager.Stop, the function returns an error"⟩,
-  ⟨N.«Rescan.Start», N.«errChan», "capacity-1 channel created by Start, one send on each path"⟩,
   ⟨N.«Rescan.Update», N.«Rescan.running», "the rescan goroutine closes `running` when it returns (which Stop forces, rows above)"⟩,
   -- peers
   ⟨N.«ServerPeer.OnRead», N.«spMsgSubscription.quitChan», "one short-lived goroutine per message; quitChan is queryAllPeers' allQuit, closed when that query ends (bounded, rows above)"⟩,
   ⟨N.«ServerPeer.OnRead», N.«msgSubscription.quitChan», "one short-lived goroutine per message; quitChan is closed by the worker's `defer cancel()` when worker.Run returns, which the work manager's quit forces"⟩,
-  -- broadcaster
-  ⟨N.«pushtx.Broadcaster.broadcastHandler», N.«rebroadcastSem», "capacity-1 semaphore: filled once at start, and returned only by the rebroadcast goroutine that took the token"⟩,
-  ⟨N.«pushtx.Broadcaster.broadcastHandler», N.«pushtx.broadcastReq.errChan», "Broadcast creates it with capacity 1 and the handler answers each request once"⟩,
   -- subscription manager
-  ⟨N.«blockntfns.SubscriptionManager.subscriptionHandler», N.«blockntfns.newSubscription.errChan», "NewSubscription creates it with capacity 1; one registration per subscription"⟩,
   ⟨N.«blockntfns.SubscriptionManager.cancelSubscription», N.«blockntfns.SubscriptionManager.cancelSubscriptions», "called from the broadcaster's handler on exit, i.e. before the subscription manager stops: the subscription handler is running and always returns to its select (notifySubscriber never parks: the subscriber queue is unbounded)"⟩,
   -- batch writer
   ⟨N.«chanutils.BatchWriter.AddItem», N.«chanutils.BatchWriter.queue.ChanIn()», "the queue goroutine receives ChanIn into an unbounded overflow list until queue.Stop, which BatchWriter.Stop calls last; the only caller (cfilter response handler) runs on worker goroutines, which workManager.Stop has waited for BEFORE filterBatchWriter.Stop (C17_stop_order). As a stand-alone component AddItem after Stop blocks for ever"⟩]
+
+/-! ### Discharge by capacity (`Gen.StopSites.chanMakes`)
+
+A send that has no alternative released in time may still be unable to park: the channel was created with room for
+every send that can ever be made on it.  Such an entry is only as good as the `make(chan …)` it speaks about, so it
+names that creation and the capacity it relies on, and `C17_capacity_checked` compares both with the regenerated
+rows on every run: the capacity of the creation in `makeFn` (found under the local name it gets there or under the
+struct field it is stored in), the capacity of EVERY creation of a channel stored in the struct field named at the
+site, and the number of send statements on that channel in the site's function.  What remains reviewed prose is the
+bound on the number of sends (`reason`). -/
+
+structure CapDischarge where
+  /-- function of the blocking site(s) -/
+  fn : Nat
+  /-- the channel as named at the site -/
+  chan : Nat
+  /-- the function that creates the channel -/
+  makeFn : Nat
+  /-- the channel as named where it is created: the local variable, or a struct field it is stored in there -/
+  makeChan : Nat
+  /-- the capacity the reason relies on, in the canonical spelling of `Gen.StopSites.chanMakes` -/
+  cap : String
+  /-- number of send statements on `chan` in `fn` that the review looked at -/
+  sendSites : Nat
+  /-- why at most `cap` sends are ever made on one such channel -/
+  reason : String
+
+def capDischarge : List CapDischarge := [
+  -- checkpointed filter-header sync: the per-response callback runs on a WORKER goroutine, so its quit alternative
+  -- (blockManager.quit, closed by blockManager.Stop) comes too late for workManager.Stop, which is called earlier
+  ⟨N.«checkpointedCFHeadersQuery.handleResponse», N.«checkpointedCFHeadersQuery.headerChan»,
+     N.«blockManager.getCheckpointedCFHeaders», N.«checkpointedCFHeadersQuery.headerChan», "len(«checkpointedCFHeadersQuery.msgs»)", 1,
+     "one slot per request of the query: requests() makes one query.Request per element of msgs, a request is finished (and removed from the batch) by the first response for which the callback returns Finished, and the send is made only on that path — so at most len(msgs) sends, none of which can park, whether or not the writer is still taking responses"⟩,
+  -- peerHandler
+  ⟨N.«ChainService.handleQuery», N.«subConnPeersMsg.reply», N.«ChainService.ConnectedPeers», N.«subConnPeersMsg.reply», "1", 1,
+     "the requester (ConnectedPeers) creates the channel for one request, and handleQuery answers a request once"⟩,
+  ⟨N.«ChainService.handleQuery», N.«peerChan», N.«ChainService.handleQuery», N.«peerChan», "‹*peerState›.Count()", 1,
+     "created two lines above the loop; the loop (state.forAllPeers) sends at most once per peer in the state, and Count() is the number of peers in the state"⟩,
+  -- work manager
+  ⟨N.«query.peerWorkManager.workDispatcher», N.«b.errChan», N.«query.peerWorkManager.Query», N.«query.batch.errChan», "1", 1,
+     rBuf1 ++ "; deferred loop over the batches still pending"⟩,
+  ⟨N.«query.peerWorkManager.workDispatcher», N.«bp.errChan», N.«query.peerWorkManager.Query», N.«query.batch.errChan», "1", 1, rBuf1⟩,
+  ⟨N.«query.peerWorkManager.workDispatcher», N.«batch.errChan», N.«query.peerWorkManager.Query», N.«query.batch.errChan», "1", 4, rBuf1⟩,
+  ⟨N.«query.peerWorkManager.Query», N.«errChan», N.«query.peerWorkManager.Query», N.«errChan», "1", 1,
+     "first send on the channel created a few lines above; the batch was not handed to the dispatcher on this path"⟩,
+  -- rescan
+  ⟨N.«Rescan.Start», N.«errChan», N.«Rescan.Start», N.«errChan», "1", 2, "created by Start; one send on each of the two paths"⟩,
+  -- broadcaster
+  ⟨N.«pushtx.Broadcaster.broadcastHandler», N.«rebroadcastSem», N.«pushtx.Broadcaster.broadcastHandler», N.«rebroadcastSem», "1", 2,
+     "semaphore: filled once at start, and returned only by the rebroadcast goroutine that took the token"⟩,
+  ⟨N.«pushtx.Broadcaster.broadcastHandler», N.«pushtx.broadcastReq.errChan», N.«pushtx.Broadcaster.Broadcast», N.«pushtx.broadcastReq.errChan», "1", 2,
+     "Broadcast creates it for one request and the handler answers each request once (the two sends are on exclusive paths)"⟩,
+  -- subscription manager
+  ⟨N.«blockntfns.SubscriptionManager.subscriptionHandler», N.«blockntfns.newSubscription.errChan»,
+     N.«blockntfns.SubscriptionManager.NewSubscription», N.«blockntfns.newSubscription.errChan», "1", 1,
+     "NewSubscription creates it with the subscription; one registration per subscription"⟩]
+
+def CapDischarge.toDischarge (d : CapDischarge) : Discharge :=
+  ⟨d.fn, d.chan, "capacity " ++ d.cap ++ " covers every send: " ++ d.reason⟩
+
+/-- the `make(chan …)` rows an entry speaks about: the creation in `makeFn` under the name `makeChan` -/
+def CapDischarge.makeRows (d : CapDischarge) : List ChanMake :=
+  chanMakes.filter (fun m => m.fn == d.makeFn && (m.name == d.makeChan || m.flows.contains d.makeChan))
+
+/-- every creation, anywhere, of a channel that is stored in the struct field named at the site -/
+def CapDischarge.sameFieldRows (d : CapDischarge) : List ChanMake :=
+  chanMakes.filter (fun m => (m.field && m.name == d.chan) || m.flows.contains d.chan)
+
+/-- number of send statements on `ch` in `fn` (select alternatives included) -/
+def sendCount (fn ch : Nat) : Nat :=
+  (sites.filter (·.fn == fn)).foldl (fun n s => n + (s.alts.filter (fun a => a.send && a.chan == ch)).length) 0
+
+def CapDischarge.ok (d : CapDischarge) : Bool :=
+  !d.makeRows.isEmpty && d.makeRows.all (·.cap == d.cap) && d.sameFieldRows.all (·.cap == d.cap) &&
+  sendCount d.fn d.chan == d.sendSites
+
+/-- the whole reviewed table: plain reasons and capacity reasons -/
+def dischargeAll : List Discharge := discharge ++ capDischarge.map (·.toDischarge)
 
 /-- Examined and NOT harmless (recorded in known-findings.txt).  Empty since the repairs of
 `pushtx.Broadcaster.MarkAsConfirmed` (bare send, F8) and of the `ChainService.Stop` order (a UTXO scan waiting in
